@@ -215,6 +215,52 @@ def _work(args):
     return out
 
 
+# ---------------------------------------------------------------------------------------------------
+# continuation chains (SourceLine_RL): rendered exactly like the specification's Pieces()
+# ---------------------------------------------------------------------------------------------------
+def _chain_pieces(chain):
+    out = []
+    n = len(chain)
+    for k, c in enumerate(chain, 1):
+        t = ("\tdb\t" if k == 1 else "") + " " * c["long"] + str(k) + ("" if k == n else ",") + \
+            srcline.text(c["ws"]) + srcline.text(c["cmt"])
+        out.append((t, srcline.text(c["eol"])))
+    return out
+
+
+def _chain_source(chains, lf_only):
+    """several chains in one file; returns bytes.  A chain whose last piece has no line end can only be the last"""
+    parts = ["\tcpu\tz80\n"]
+    for ci, ch in enumerate(chains):
+        ps = _chain_pieces(ch)
+        for k, (t, eol) in enumerate(ps):
+            last = k == len(ps) - 1
+            if eol == "" and not (last and ci == len(chains) - 1):
+                eol = "\n"
+            if lf_only and eol:
+                eol = "\n"
+            parts.append(t + ("" if last else "\\") + eol)
+    return "".join(parts).encode("latin-1")
+
+
+def _chain_job(args):
+    (bdir, hooks, flavour, chains) = args
+    from vlib.build import Build
+    b = Build(bdir, flavour, hooks)
+    var = _chain_source(chains, False)
+    ref = _chain_source(chains, True)
+    rv = aslrun.assemble(b, {"a.asm": var}, opts=["-q"], events="file,line" if hooks else None)
+    rr = aslrun.assemble(b, {"a.asm": ref}, opts=["-q"])
+    lines = None
+    if rv.trace:
+        lines = [e["text"] for e in rv.trace if e["e"] == "line" and e["pass"] == 1]
+    def data(r):
+        pr = r.parsed() if r.p is not None else None
+        return [(x.seg, x.start, bytes(x.data)) for x in pr.data_records()] if pr is not None else None
+    return {"var": var, "ref": ref, "rc_var": rv.rc, "rc_ref": rr.rc, "msg": (rv.out + rv.err)[-300:],
+            "same": rv.rc == 0 and rr.rc == 0 and data(rv) == data(rr) and data(rv) is not None, "lines": lines}
+
+
 def _key(name, cause):
     """key for known findings: the recorded deviation the culprit line runs into (None = unexplained)"""
     return {"kind": "image" if cause["rc"] == 0 else "rejected", "deviation": cause["cls"] or "none"}
@@ -300,9 +346,43 @@ def main(tier):
     for res in results[:2]:
         v = res["variants"][0]
         rep.sample({"test": res["test"], "file_vector": v["fvec"], "stats": v["stats"], "equal_to_ori": v["equal"]})
+    # (M)+(G) the line reader: continuation chains x line ends ------------------------------------------
+    with Phase("TLC SourceLine_RL"):
+        rl = tlc.must(tlc.run("SourceLine_RL", "SourceLine_RL.cfg" if quick else "SourceLine_RL4.cfg", workers=min(NCPU, 8),
+                              timeout=1200, mem="8g", collect=False), "SourceLine_RL")
+    if rl.violation:
+        raise CheckError("SourceLine_RL: the reader model violates its invariants: %s" % rl.violation[:900])
+    rep.model("SourceLine_RL", rl)
+    rlg = tlc.must(tlc.run("SourceLine_RL", "SourceLine_RLGen.cfg", workers=1, timeout=900, mem="8g"), "SourceLine_RL(gen)")
+    if rlg.violation:
+        raise CheckError("SourceLine_RL(gen): %s" % rlg.violation[:600])
+    rep.model("SourceLine_RL(gen)", rlg)
+    chains = [v["chain"] for (tag, v) in rlg.printed if tag == "OUT" and v.get("kind") == "chain"]
+    multi = [c for c in chains if len(c) >= 2]
+    r.shuffle(multi)
+    multi = multi[:(400 if quick else 6000)]
+    groups = [multi[i:i + 6] for i in range(0, len(multi), 6)]
+    with Phase("continuation chains: %d chains in %d sources, CR-LF/mixed vs LF spelling" % (len(multi), len(groups))):
+        with cf.ProcessPoolExecutor(max_workers=NCPU) as ex:
+            cres = list(ex.map(_chain_job, [(bld.dir, bld.hooks, bld.flavour, g) for g in groups], chunksize=4))
+    file_ev = []
+    for g, cr in zip(groups, cres):
+        rep.evaluated()
+        rep.distinct(cr["var"], cr["var"] != cr["ref"])
+        if not cr["same"]:
+            rep.violation("a source with backslash continuations assembles differently with CR-LF / mixed line ends "
+                          "than with LF line ends (rc %s vs %s): %s" % (cr["rc_var"], cr["rc_ref"], cr["msg"][-200:]),
+                          case={"test": "(generated continuation chains)", "chains": g},
+                          files={"a.asm": cr["var"], "a_lf.asm": cr["ref"]}, key={"kind": "chain", "deviation": "none"})
+        if cr["lines"] is not None:
+            file_ev.append([{"a": "FILE", "data": list(cr["var"]), "lines": [srcline.codes(x) for x in cr["lines"]]}])
+    rep.traces(len(groups))
+    rep.part("chains", chains=len(multi), sources=len(groups), enumerated=len(chains))
+    if groups:
+        rep.sample({"continuation_source": cres[0]["var"].decode("latin-1"), "same_code_as_lf_spelling": cres[0]["same"]})
     # (V) -------------------------------------------------------------------------------------------
     if bld.hooks and split_ev:
-        execs = split_ev + pair_ev
+        execs = split_ev + pair_ev + file_ev
         nsp, npa = sum(map(len, split_ev)), sum(map(len, pair_ev))
         rejected = 0
         with Phase("SourceLine_Trace: %d split + %d pair events" % (nsp, npa)):
@@ -314,14 +394,18 @@ def main(tier):
                     break
                 rejected += 1
                 e = v.fail_event
-                rep.drift("SourceLine_Trace rejects a %s event: raw=%r orig=%r params=%r logged lab=%r op=%r attr=%r args=%r" % (
-                    e.get("a"), srcline.text(e.get("raw", [])), srcline.text(e.get("orig", [])), e.get("p"),
-                    srcline.text(e.get("lab", [])), srcline.text(e.get("op", [])), srcline.text(e.get("attr", [])),
-                    [srcline.text(a) for a in e.get("args", [])]))
+                if e.get("a") == "FILE":
+                    rep.drift("SourceLine_Trace rejects a FILE event: the assembler delivered %r for the file %r" % (
+                        [srcline.text(x) for x in e["lines"]], srcline.text(e["data"])))
+                else:
+                    rep.drift("SourceLine_Trace rejects a %s event: raw=%r orig=%r params=%r logged lab=%r op=%r attr=%r args=%r" % (
+                        e.get("a"), srcline.text(e.get("raw", [])), srcline.text(e.get("orig", [])), e.get("p"),
+                        srcline.text(e.get("lab", [])), srcline.text(e.get("op", [])), srcline.text(e.get("attr", [])),
+                        [srcline.text(a) for a in e.get("args", [])]))
                 # go on behind the rejected event
                 execs = [list(x) for x in execs]
                 execs = [execs[v.fail_exec][v.fail_index + 1:]] + execs[v.fail_exec + 1:]
-        rep.part("SourceLine_Trace", events=nsp + npa, executions=len(split_ev) + len(pair_ev), accepted=rejected == 0,
+        rep.part("SourceLine_Trace", file_events=len(file_ev), events=nsp + npa, executions=len(split_ev) + len(pair_ev), accepted=rejected == 0,
                  rejected_events=rejected, split_events=nsp, pair_events=npa,
                  distinct_lines_in_corpus=sum(x["nlines"] for x in results), wall_s=v.wall)
         rep.traces(len(split_ev) + len(pair_ev))
@@ -343,6 +427,15 @@ def replay(path):
     v = json.load(open(os.path.join(path, "violation.json")))
     bld = build.get("hook")
     case = v["case"]
+    if "chains" in case:
+        a = aslrun.assemble(bld, {"a.asm": open(os.path.join(path, "a.asm"), "rb").read()}, opts=["-q"])
+        b = aslrun.assemble(bld, {"a.asm": open(os.path.join(path, "a_lf.asm"), "rb").read()}, opts=["-q"])
+        log("replay: CR-LF/mixed spelling rc=%s, LF spelling rc=%s, same code file: %s\n%s" % (
+            a.rc, b.rc, a.p is not None and b.p is not None and
+            [bytes(x.data) for x in a.parsed().data_records()] == [bytes(x.data) for x in b.parsed().data_records()],
+            a.out + a.err))
+        log("recorded: %s" % v["what"])
+        return 0
     t = [x for x in aslrun.corpus() if x[0] == case["test"]][0]
     name = t[0]
     main_b = open(os.path.join(path, name + ".asm"), "rb").read()
